@@ -21,15 +21,13 @@ func (authentication *Authentication) Marshal() ([]byte, error) {
 }
 
 func (authentication *Authentication) Unmarshal(b []byte) error {
-	if len(b) > 0 {
-		// bounds checking
-		if len(b) <= 4 {
-			return errors.Errorf("Authentication: No sufficient bytes to decode next authentication")
-		}
-
-		authentication.AuthenticationMethod = b[0]
-		authentication.AuthenticationData = append(authentication.AuthenticationData, b[4:]...)
+	// bounds checking
+	if len(b) <= 4 {
+		return errors.Errorf("Authentication: No sufficient bytes to decode next authentication")
 	}
+
+	authentication.AuthenticationMethod = b[0]
+	authentication.AuthenticationData = append(authentication.AuthenticationData, b[4:]...)
 
 	return nil
 }
